@@ -287,7 +287,10 @@ Proof. vm_compute. reflexivity. Qed.
    invalidation, at rest), 10.4 (Access passes the current value), 10.5 (invalidated => the callback's context is cancelled promptly: as soon as the watcher goroutine of the invocation is no longer
    parked before its cbCancel()),
    10.6 (the callback's result is returned only from an invocation that was not invalidated; re-invocation at rest),
-   10.7 (resolver error / Canceled returned as such), and the observations always parse.
+   10.7 (resolver error / Canceled returned as such), 10.8 (a Wait / Resolve / ResolveWithReleased call that fails returns the resolver's
+   error or context.Canceled: no consumer has status 7 = "returned a context error that is not context.Canceled itself", which is what the
+   harness reports when a caller whose context ended like a deadline, or was cancelled with a cause, is handed context.DeadlineExceeded / the
+   cause), and the observations always parse.
    So these monitors cannot raise an alarm on an implementation that behaves like the model, and the model satisfies the property
    in exactly the form the checks evaluate it.  Behind 10.4 - 10.7: the judge's books of Spec.mon1 (inside the callback, its
    context cancelled, invalidated since the invocation started, decided to return: expected code and whether a callback result)
@@ -319,6 +322,19 @@ Example c10_example_monitors_aba :
   (* the consumer's row (code v parked-watchers held fired firepc) after the first return, after the second, and at the end
      (the watcher of the first invocation was woken by released() and is still parked: the callback returned before its cbCancel()) *)
   map (fun o => skipn (length o - 6) o) (skipn 9 obs) = [[6; 7; 1; 0; 0; 0]; [2; 0; 1; 0; 0; 0]; [3; 11; 1; 0; 0; 0]]%N.
+Proof. vm_compute. repeat split; reflexivity. Qed.
+
+(* clause 10.8 is not vacuous: a Wait caller whose context is ended gets Canceled (row: status 3, error code 1) and the trace is
+   clean; the same trace with the row an implementation returning ctx.Err() produces for a context that ended like a deadline
+   (status 7, error code 97 = context.DeadlineExceeded) is a mismatch AND falsifies clause 10.8 at that step *)
+Example c10_example_clause8 :
+  let evs := [[10; 0]; [11; 0]; [4; 0]]%N in
+  let obs := run_obs step_opt (hinit [0]%N) evs in
+  let lasto := last obs [] in
+  let bad := (firstn 2 obs ++ [firstn (length lasto - 6) lasto ++ [7; 0; 97; 0; 0; 0]%N])%list in
+  length obs = length evs /\ run_check_refcount [0]%N evs obs = [] /\
+  skipn (length lasto - 6) lasto = [3; 0; 1; 0; 0; 0]%N /\
+  monitor mon 0 (minit [0]%N) [] evs bad = [PropFalse 10 8 2].
 Proof. vm_compute. repeat split; reflexivity. Qed.
 
 (* the clause-wise corollaries (kept: the partial statements the full one supersedes) *)
